@@ -632,9 +632,11 @@ pub fn gen_cli_mapped(rng: &mut Rng) -> E3Scn {
     let reserved = [s.stop_sig_no(), s.busy_sig_no()];
     let free: Vec<&str> = ["HUP", "USR1", "USR2", "QUIT"].into_iter().filter(|n| !reserved.contains(&sig_no(n))).collect();
     let (mapped_quit, other) = if rng.chance(1, 2) { ("INT", 15) } else { ("TERM", 2) };
-    let to: Option<String> = match rng.below(4) {
+    let to: Option<String> = match rng.below(5) {
         0 => None,
         1 if !reserved.contains(&sig_no(mapped_quit)) => Some(mapped_quit.to_string()),
+        // passed on as KILL (added after A17-C05q): the run ends by a signal the job itself delivered through signal()
+        2 => Some("KILL".to_string()),
         _ => free.first().map(|n| n.to_string()),
     };
     s.map_signals = vec![(mapped_quit.to_string(), to)];
